@@ -22,6 +22,9 @@ mod c13;
 mod c14;
 mod c19;
 mod c20;
+mod simnet;
+mod c02;
+mod c01;
 
 use common::Tier;
 
@@ -43,6 +46,8 @@ fn main() {
     let threads = std::env::var("VERIF_THREADS").ok().and_then(|s| s.parse().ok()).unwrap_or(16);
     rayon::ThreadPoolBuilder::new().num_threads(threads).stack_size(16 << 20).build_global().ok();
     let code = match args[1].as_str() {
+        "C01" => c01::run(tier),
+        "C02" => c02::run(tier),
         "C03" => c03_c04_c06::run_c03(tier),
         "C04" => c03_c04_c06::run_c04(tier),
         "C06" => c03_c04_c06::run_c06(tier),
